@@ -11,7 +11,8 @@ _GEN_OUT = os.path.join(core.LEAN, "IcingaProofs", "Gen", "SandboxGuards.lean")
 
 # theorems that do not depend on whether F-C19a (SetConst unguarded) is still open
 _COMMON = ["sandbox_noninterference", "sandbox_only_safe_calls", "unsafe_native_call_rejected",
-           "sandbox_hidden_fields", "sandbox_hidden_fields_indexer", "model_obs_meets_spec",
+           "sandbox_hidden_fields", "sandbox_hidden_fields_indexer", "sandbox_hidden_fields_reference",
+           "sandbox_hidden_fields_deref", "reference_checks_present", "model_obs_meets_spec",
            "model_native_obs_meets_spec", "translator_covers_model_kinds", "call_and_field_checks_present",
            "safe_callback_invokers_checked", "reference_paths_cannot_write", "documented_guards_present"]
 _KNOWN = ["all_mutating_nodes_guarded_partial", "setconst_counterexample", "sandbox_noninterference_repaired"]
@@ -27,6 +28,14 @@ def _unhex(h):
         return bytes.fromhex(h).decode("utf-8", "replace")
     except ValueError:
         return "?"
+
+
+def _opline(line):
+    """`X <sig> <op line>` -> the op line."""
+    if line.startswith("X "):
+        parts = line.split(" ", 2)
+        return parts[2] if len(parts) > 2 else ""
+    return line
 
 
 def _src(line):
@@ -131,14 +140,17 @@ class C19(Check):
         res.distinct_nontrivial = stats["nontrivial"]
         res.traces_validated = stats["cases"]
         res.exhaustive = False
-        res.rule = ("every canned program (one per statement form / operator / left-hand-side shape / exfiltration attempt) at the three production "
-                    "call sites (GetFilterTargets with a filter, event-queue frame, ConsoleHandler::ExecuteScriptHelper sandboxed); every function and "
+        res.rule = ("every canned program (one per statement form / operator / left-hand-side shape incl. assignments through missing keys and through "
+                    "references / unsafe native as callback of every higher-order native / exfiltration attempt) at four call sites (GetFilterTargets with a "
+                    "filter for a user without and WITH a permission filter, EventQueue::ProcessEvent, ConsoleHandler::ExecuteScriptHelper sandboxed); "
+                    "seeded nested programs combining the statement forms; every no_user_view field of every instantiable type (markers planted) read as "
+                    "obj.f, obj[\"f\"], *(&obj.f), (&obj.f).get(), via get_object at every site, plus whole-object serialisers; every function and "
                     "prototype method reachable from the global namespace (reflection at run time) called with its declared arity from a pool of live "
-                    "objects/shared containers/namespaces/functions plus seeded random tuples; every no_user_view field of every instantiable type read "
-                    "as obj.f and obj[\"f\"] plus two visible fields per type as control. evaluations = sandboxed evaluations, each followed by a deep "
+                    "objects/shared containers/namespaces/functions plus seeded random tuples. Programs run in forked children under a per-program alarm "
+                    "(death/hang => X line => SPECFAIL no_crash/no_hang). evaluations = sandboxed evaluations, each followed by a deep "
                     "snapshot diff; non-trivial = evaluations that ended in a value or in a sandbox/hidden-field refusal (not in an unrelated error)")
         gen_save = outs[-1][0]
-        raw = open(gen_save).read().splitlines()
+        raw = open(gen_save, errors="replace").read().splitlines()
         res.samples = [l.split(" src=")[0] + " src=" + repr(_src(l)) + " | " + l.split(" | ")[-1] for l in raw if l[:2] in ("P ", "N ", "H ")][::max(1, len(raw) // 8)][:8]
         res.extra = {"generated_tables": {"node_kinds": len(self.tables["nodeGuards"]),
                                           "guarded": [k for k, v in self.tables["nodeGuards"] if v],
@@ -147,8 +159,9 @@ class C19(Check):
                                           "callCheck": self.tables["callCheck"], "fieldCheck": self.tables["fieldCheck"]}} if hasattr(self, "tables") else {}
 
         seen = set()
+        per_clause = {}
         for save, lines in outs:
-            raw = open(save).read().splitlines()
+            raw = open(save, errors="replace").read().splitlines()
             for l in lines:
                 if l.startswith("BADLINE"):
                     res.corr_failures.append(runner.Finding("corr", "protocol", [l]))
@@ -161,12 +174,24 @@ class C19(Check):
                 # every case is a single self-contained line: replaying it alone IS the minimal witness
                 shown = case
                 still = True
-                if case and case[0][:2] in ("P ", "N ", "H "):
+                op = _opline(case[0]) if case else ""
+                if l.startswith("SPECFAIL"):
+                    # at most three concrete witnesses per clause (a broken sandbox fails hundreds of programs)
+                    pk = (kv.get("clause"), kv.get("leak", ""))
+                    prekey = ("spec", kv.get("clause"), op.split()[1] if len(op.split()) > 1 else "", _src(op))
+                    if prekey in seen:
+                        continue
+                    if per_clause.get(pk, 0) >= 3:
+                        continue
+                    per_clause[pk] = per_clause.get(pk, 0) + 1
+                if case and case[0][:2] in ("P ", "N ", "H ", "X "):
                     dout, shown = self._replay_lines(harness, driver, case)
+                    shown = [x for x in shown if x.strip()]
                     still = any(x.startswith(l.split()[0]) for x in dout)
-                data = {"driver": l, "src": _src(case[0]) if case else "", "reproduces_alone": still,
-                        "site": case[0].split()[1] if case and len(case[0].split()) > 1 else "",
-                        "kind": case[0][:1] if case else "", "obs": shown[0].split(" | ")[-1] if shown and " | " in shown[0] else ""}
+                data = {"driver": l, "src": _src(op) if case else "", "reproduces_alone": still,
+                        "site": op.split()[1] if case and len(op.split()) > 1 else "",
+                        "kind": op[:1] if case else "", "died": case[0].startswith("X ") if case else False,
+                        "obs": shown[0].split(" | ")[-1] if shown and " | " in shown[0] else ""}
                 if l.startswith("SPECFAIL"):
                     key = ("spec", kv.get("clause"), data["site"], data["src"])
                     if key in seen:
@@ -207,9 +232,9 @@ class C19(Check):
 
     def replay(self, path, harness, driver):
         data = json.load(open(path))
-        lines = [l for l in data.get("case", []) if l[:2] in ("P ", "N ", "H ")]
+        lines = [l for l in data.get("case", []) if l[:2] in ("P ", "N ", "H ", "X ")]
         out, shown = self._replay_lines(harness, driver, lines, "replay")
-        for l in shown:
+        for l in [x for x in shown if x.strip()]:
             print(l.split(" src=")[0] + " src=" + repr(_src(l)) + " | " + l.split(" | ")[-1])
         print("\n".join(out))
         return not any(l.startswith(("SPECFAIL", "MISMATCH", "BADLINE")) for l in out)
